@@ -322,6 +322,20 @@ P("C16",
   assumptions=["side margin = floor(sideMargin * smallest positive cell height), the code's reading of 'standard cell height'"])
 
 
+P("C18",
+  rc={"quick": (12, 8000, 100, 8), "thorough": (14, 120000, 100, 8)},
+  rule=CIRCUIT_RULE + "Zero-size movable cells allowed. expandCellsToDensity(target in (0,1), margin 0..2, cap 0.05..1.5) and "
+       "expandCellsByFactor(factors in [1,4], maxDensity 0.05..1.5, margin): only widths of movable cells change (frame "
+       "snapshot), no movable width decreases when cap*maxRowWidth >= its width, movable area <= target*A_hi + 1e-5*A + sum of "
+       "cell heights with A_hi = sum over the harness's free segments of max(0,w-2*margin*h)*h; when the target is reachable "
+       "without the per-cell cap the movable area >= target*A_lo - h_max - 1e-5*A. computeCellExpansion on 0..6 overlapping "
+       "regions (congestion 0..3): 1 for fixed cells and cells meeting no region with congestion > 1, else the max of "
+       "(c-1)*penaltyFactor+fixedPenalty+1 (relative 1e-5). non-trivial = >= 2 movable cells of different heights with an "
+       "obstruction or a margin removing >= 5% of the area and an actual expansion; for computeCellExpansion a cell meeting "
+       ">= 2 congested regions; distinct = hash of circuit and arguments.",
+  assumptions=["zero-area movable cells are not judged by the computeCellExpansion clause ('intersects' is ambiguous for them)"])
+
+
 # ----------------------------------------------------------------------------
 def sh(cmd, **kw):
     return subprocess.run(cmd, stdout=subprocess.PIPE, stderr=subprocess.STDOUT, text=True, **kw)
